@@ -30,6 +30,12 @@ ASSUME \A w \in Weights :
 ASSUME \E w \in Weights : Good(w) /\ PickLower(w, 0, D) \notin Admissible(w, 0, D)
 ASSUME \A w \in Weights : Good(w) => CountOK(w, D, [i \in 1 .. Len(w) |->
                                    Cardinality({j \in Lattice : PickUpper(w, j, D) = i})])
+\* the carry chain of LimbQ is the floor of the exact quotient (base 4, three limbs, every x, S <= 9, the addend at every limb), and the
+\* first channel above it is the owner of x / 4^3 on the lattice of 64 points
+ASSUME \A b \in [1 .. 3 -> 0 .. 3] : \A S \in 1 .. 9 : \A o \in 0 .. 2 : \A add \in {0, 1, 5, 8 * S} :
+          LimbQ(b, S, o, add, 4) = (LimbValue(b, 4) * S + add * 4 ^ o) \div 64
+ASSUME \A w \in Weights : (Good(w) /\ Len(w) <= 3) =>
+          \A b \in [1 .. 3 -> 0 .. 3] : {FirstAbove(w, LimbQ(b, Total(w), 0, 0, 4))} = Owner(w, LimbValue(b, 4), 64)
 VARIABLE x
 Init == x = 0
 Next == x < 1 /\ x' = x + 1
